@@ -29,6 +29,18 @@ type c04case struct {
 	Ctl        bool   `json:"ctl"`      // with rich: texts holding a control character or a backslash followed by 'u' (JSONRecord's unescaping step)
 	WantRecs   bool   `json:"want_recs"` // report the records behind the chunks (always done for rich cases)
 	NoClose    bool   `json:"no_close"` // OptionDontCloseFile: every byte must still reach the sink (flushed), which is not closed
+	// round 3
+	Mode      string   `json:"mode"`        // "" (in-memory sink) | file | stdout | chunks | wfile   (c04x.go)
+	Qual      bool     `json:"qual"`        // every record carries qualities (json / csv / auto writers)
+	EmptySeq  bool     `json:"empty_seq"`   // some records have a zero-length sequence (FASTA/FASTQ: OptionsSkipEmptySequence(true))
+	Tax       bool     `json:"tax"`         // records carry count / taxid / scientific_name in three combinations
+	Var       bool     `json:"var"`         // variety: float/bool/slice/nested attributes, odd ids, IUPAC upper case, percent signs
+	Csv       string   `json:"csv"`         // csv option letters: i(no id) c(count) t(taxon) d(definition) k(keys) s(no sequence) q(quality) a(auto) N(NA value "-")
+	Append    bool     `json:"append"`      // file mode: OptionsAppendFile
+	Paired    bool     `json:"paired"`      // file mode: paired iterator, reverse reads written to a second file
+	Old       int      `json:"old"`         // file / wfile mode: the file exists already and holds that many bytes
+	RawChunks []string `json:"raw_chunks"`  // chunks / wfile mode: the chunks themselves (hex)
+	ToBeClosed bool    `json:"to_be_closed"` // chunks mode
 }
 
 type c04obs struct {
@@ -49,6 +61,16 @@ type c04obs struct {
 	Recs    [][]string   `json:"recs,omitempty"`    // json: hex of JSONRecord(s) per batch, per record
 	Fields  [][][]string `json:"fields,omitempty"`  // csv: hex of the fields of CSVRecord(s) per batch, per record
 	HdrFlds []string     `json:"hdr_fields"`        // csv: hex of the fields of CSVHeader
+	// round 3
+	Files      []string     `json:"files,omitempty"`       // hex: content of the output file(s) when the result iterator ended (forward, reverse)
+	FilesFinal []string     `json:"files_final,omitempty"` // the same after obiiter.WaitForLastPipe
+	OldHex     []string     `json:"old_hex,omitempty"`     // what the files held before
+	RChunks    []string     `json:"rchunks,omitempty"`     // paired: formatted reverse batch i
+	RHeader    string       `json:"rheader,omitempty"`
+	Info       [][]c04rec   `json:"info,omitempty"`        // the data of every record (independent oracle of CSVRecord)
+	EmptyIds   []string     `json:"empty_ids,omitempty"`   // ids of the records with a zero-length sequence
+	BQ         []string     `json:"bq,omitempty"`          // universal writer: what batch i says about qualities (empty | qual | noqual)
+	AutoKeys   []string     `json:"auto_keys,omitempty"`   // csv auto: hex of the non-map attribute keys of batch 0 (any order)
 	FChunks []string     `json:"fchunks,omitempty"` // csv: hex of FormatCVSBatch(batch i) under its true number (header inside batch 0)
 }
 
@@ -96,7 +118,9 @@ var c04nasty = []string{
 	"back\\slash", "cr\rlf", "a<b>&c", "trail ", "\"", ",", "\t", "x\"\"y", "{\"k\":1}", "[1,2]", "\u2028sep", "\u3000wide",
 }
 
-var c04ctl = []string{"C:\\users\\me", "ctl\x01char", "esc\\u0041"}
+var c04curOpt *obiformats.Options
+
+var c04ctl = []string{"C:\\users\\me", "ctl\x01char", "esc\\u0041", "C:\\users\\u00e9milie\\u12"}
 
 func c04batchN(c c04case, b, n, order int, seqlen int, idpad int) obiiter.BioSequenceBatch {
 	w := c.Writer
@@ -115,8 +139,15 @@ func c04batchN(c c04case, b, n, order int, seqlen int, idpad int) obiiter.BioSeq
 		} else {
 			sq = []byte("acgtacgt")[:1+(b+i)%3]
 		}
+		if c.Var && seqlen == 0 {
+			sq = []byte("ACGTRYSWKMBDHVNacgtn")[(b+i)%5 : 6+(2*b+i)%14]
+			id = c04ids[(2*b+i)%len(c04ids)] + id
+		}
+		if c.EmptySeq && (b+i)%3 == 1 {
+			sq = []byte{}
+		}
 		var s *obiseq.BioSequence
-		if w == "fastq" {
+		if w == "fastq" || c.Qual {
 			q := make([]byte, len(sq))
 			for k := range q {
 				q[k] = byte(20 + k%20)
@@ -137,6 +168,7 @@ func c04batchN(c c04case, b, n, order int, seqlen int, idpad int) obiiter.BioSeq
 				s.SetAttribute("m", map[string]int{"x y": i, "q\"": b})
 			}
 		}
+		c04decorate(c, s, b, i)
 		sl = append(sl, s)
 	}
 	return obiiter.MakeBioSequenceBatch("verif", order, sl)
@@ -147,19 +179,34 @@ func c04opts(c c04case) []obiformats.WithOption {
 	if c.Rich && c.Writer == "csv" {
 		opts = append(opts, obiformats.CSVDefinition(true), obiformats.CSVCount(true), obiformats.CSVKeys([]string{"k", "n", "absent"}))
 	}
+	opts = append(opts, c04csvopts(c, false)...)
+	if c.EmptySeq {
+		opts = append(opts, obiformats.OptionsSkipEmptySequence(true))
+	}
 	return opts
 }
 
 func c04format(c c04case, batch obiiter.BioSequenceBatch) []byte {
 	opt := obiformats.MakeOptions(c04opts(c))
-	switch c.Writer {
+	w := c.Writer
+	if w == "auto" {
+		// the universal writer: FASTQ iff the records carry qualities
+		w = "fasta"
+		if c.Qual {
+			w = "fastq"
+		}
+	}
+	switch w {
 	case "fasta":
-		return obiformats.FormatFastaBatch(batch, opt.FormatFastSeqHeader(), false).Bytes()
+		return obiformats.FormatFastaBatch(batch, opt.FormatFastSeqHeader(), c.EmptySeq).Bytes()
 	case "fastq":
-		return obiformats.FormatFastqBatch(batch, opt.FormatFastSeqHeader(), false).Bytes()
+		return obiformats.FormatFastqBatch(batch, opt.FormatFastSeqHeader(), c.EmptySeq).Bytes()
 	case "json":
 		return obiformats.FormatJSONBatch(batch)
 	case "csv":
+		if c04curOpt != nil {
+			return obiformats.FormatCVSBatch(batch, *c04curOpt)
+		}
 		return obiformats.FormatCVSBatch(batch, opt)
 	}
 	return nil
@@ -214,6 +261,9 @@ func c04hexs(xs []string) []string {
 }
 
 func c04run(c c04case) (o c04obs) {
+	if c.Mode == "chunks" || c.Mode == "wfile" {
+		return c04runRaw(c)
+	}
 	if c04hangs >= 3 {
 		o.Kind, o.Err = "hang", "not run: the writers hung on 3 earlier cases of this process"
 		return
@@ -241,6 +291,13 @@ func c04run(c c04case) (o c04obs) {
 		return c04batchN(c, b, shapes[b].n, order, shapes[b].seqlen, shapes[b].idpad)
 	}
 	fopt := obiformats.MakeOptions(c04opts(c))
+	c04curOpt = nil
+	if c.Writer == "csv" {
+		// csv auto: the expected columns are the sorted non-map attribute keys of batch 0
+		c04auto(c, &o, fopt, func(b int) obiiter.BioSequenceBatch { return mk(b, b) }, n)
+		c04curOpt = &fopt
+	}
+	defer func() { c04curOpt = nil }()
 	// the chunks the theorem speaks about: the formatted bytes of every batch
 	for b := 0; b < n; b++ {
 		wantRecs := c.Rich || c.WantRecs
@@ -258,6 +315,22 @@ func c04run(c c04case) (o c04obs) {
 		} else {
 			o.Chunks = append(o.Chunks, hex.EncodeToString(c04format(c, mk(b, b))))
 		}
+		if (c.Writer == "fasta" || c.Writer == "fastq" || c.Writer == "auto") && (wantRecs || c.EmptySeq) && len(c.Bytes) == 0 {
+			// the text every record contributes to its chunk (nothing for a zero-length sequence, skipped)
+			rl := []string{}
+			fq := c.Writer == "fastq" || (c.Writer == "auto" && c.Qual)
+			for _, s := range mk(b, b).Slice() {
+				switch {
+				case s.Len() == 0:
+					rl = append(rl, "")
+				case fq:
+					rl = append(rl, hex.EncodeToString([]byte(obiformats.FormatFastq(s, fopt.FormatFastSeqHeader()))))
+				default:
+					rl = append(rl, hex.EncodeToString([]byte(obiformats.FormatFasta(s, fopt.FormatFastSeqHeader())+"\n")))
+				}
+			}
+			o.Recs = append(o.Recs, rl)
+		}
 		if c.Writer == "json" && wantRecs {
 			rl := []string{}
 			for _, s := range mk(b, b).Slice() {
@@ -272,6 +345,27 @@ func c04run(c c04case) (o c04obs) {
 	if c.Writer == "csv" {
 		o.Header = hex.EncodeToString(c04format(c, c04batchN(c, 0, 0, 0, 0, 0)))
 		o.HdrFlds = c04hexs(obiformats.CSVHeader(fopt))
+	}
+	c04info(c, &o, fopt, func(b int) obiiter.BioSequenceBatch { return mk(b, b) }, n)
+	if c.Writer == "auto" {
+		// what every batch says about qualities: its first record with a sequence of non-zero length
+		for b := 0; b < n; b++ {
+			say := "empty"
+			for _, s := range mk(b, b).Slice() {
+				if s.Len() > 0 {
+					say = "noqual"
+					if s.HasQualities() {
+						say = "qual"
+					}
+					break
+				}
+			}
+			o.BQ = append(o.BQ, say)
+		}
+	}
+	if c.Mode == "file" || c.Mode == "stdout" {
+		c04runFile(c, &o, func(b int) obiiter.BioSequenceBatch { return mk(b, b) }, n)
+		return
 	}
 
 	sink := &c04sink{done: make(chan struct{}), slow: time.Duration(c.Slow) * time.Millisecond}
@@ -303,6 +397,8 @@ func c04run(c c04case) (o c04obs) {
 		res, err = obiformats.WriteJSON(input, sink, opts...)
 	case "csv":
 		res, err = obiformats.WriteCSV(input, sink, opts...)
+	case "auto":
+		res, err = obiformats.WriteSequence(input, sink, opts...)
 	default:
 		o.Kind, o.Err = "hang", "unknown writer"
 		return
